@@ -49,6 +49,14 @@ CLAIMED = {
             "reference parser, one-octet mutations of valid streams likewise; get_context / Any.decode against the reference bracket matcher "
             "for every class pattern up to 5..8 (7..10) tags.",
             "Trusted: as C07 plus vf/ref/C02_tags.py. Non-canonical but complete encodings may be accepted or refused (the statement is silent)."),
+    "C03": ("6/C03", SX + "; differential against an independent schema-driven reference encoder (ref/asn1_schema.json, 148 of 227 productions audited by hand against clause 21) and 15 re-derived Annex F examples",
+            "For all 227 Sequence/Choice classes read from the live modules a schema-driven builder draws presence of every optional, every "
+            "alternative, list lengths and leaves (one shared symbolic width class per path): decode(encode(v)) is structurally v, "
+            "encode(decode(octets)) == octets, an appended tag or a removed required element is refused, the octets equal the reference "
+            "encoder's (which sees a context number changed consistently on both sides), every registry maps each service choice to the class "
+            "the schema names, and the Annex F framings are emitted for every slot value and decode to the published parameters.",
+            "Trusted: as C01 plus vf/ref/C03_{gen,cmp,enc}.py and the schema JSON: for its 79 unaudited productions the reference is a "
+            "regression oracle only; shape bounds: top-level lists 0..1 (0..3), nested <= 2, depth <= 4, first 8 (16) leaves symbolic."),
     "C04": ("6/C04", SCN,
             "Two complete stacks on a fault-injecting virtual LAN: for every placement of the instance's faults (drop, duplicate, reorder, "
             "delay across timeouts, silence from any frame on) over every frame, with symbolic payload octets, the solver-explored paths "
@@ -145,6 +153,15 @@ CLAIMED = {
             "destination go to the router the reference names or trigger Who-Is-Router.",
             "Trusted: as C04 plus vf/ref/C19_routes.py; renumbering onto a network that already has routers is treated as unspecified "
             "(any coherent outcome accepted)."),
+    "C20": ("6/C20", SX + "; differential against a clause 12.24 / 20.2.12 / 21 reference (date matchers, direct schedule interpreter, integer UTC clock model)",
+            "Every valid date 1900..2154 (symbolic, day of week tied by an independent ordinal) against every date pattern, week-n-day pattern, "
+            "date range (open-ended limits) and calendar entry: the real matchers equal the reference; eval on schedules of 0..2 (3) exceptions "
+            "of every period kind with symbolic priorities, 0..2 (3) time-values with symbolic times and Nulls, weekly entries, default and "
+            "effective period at a symbolic time equals the direct interpreter, and no value changes between the evaluated instant and the "
+            "reported next transition; a LocalScheduleObject driven by its own timer shows the reference value at symbolic probe instants "
+            "across midnights, month/year ends and both edges of its effective period.",
+            "Trusted: as C14 plus vf/ref/C20_*.py; time.localtime/mktime replaced by an integer UTC model while running symbolically (checked "
+            "against the C functions, TZ=UTC); unsorted time lists, sub-second entries and the value under a priority tie are outside."),
 }
 
 NOT_YET = {}
